@@ -774,6 +774,13 @@ func (vm *VirtualMachine) push(obj object.Object) {
 	vm.stack[vm.sp] = obj
 }
 
+// unwindStack pops values until the stack pointer is back at the given level.
+func (vm *VirtualMachine) unwindStack(sp int) {
+	for vm.sp > sp {
+		vm.pop()
+	}
+}
+
 func (vm *VirtualMachine) swap(pos int) {
 	otherIndex := vm.sp - pos
 	tos := vm.stack[vm.sp]
@@ -876,6 +883,9 @@ func (vm *VirtualMachine) callFunction(
 
 	// Evaluate the function code then return the result from TOS
 	if err := vm.eval(ctx); err != nil {
+		// Discard any intermediate values the failed call left on the stack,
+		// so that resumeFrame does not mistake one of them for a result.
+		vm.unwindStack(baseSP)
 		return nil, err
 	}
 	return vm.pop(), nil
@@ -1027,6 +1037,7 @@ func (vm *VirtualMachine) importModule(ctx context.Context, name string) (*objec
 	defer vm.resumeFrame(baseFP, baseIP, baseSP)
 	// Evaluate the module code
 	if err := vm.eval(ctx); err != nil {
+		vm.unwindStack(baseSP)
 		return nil, err
 	}
 	module.UseGlobals(code.Globals)
